@@ -11,6 +11,7 @@
 #ifndef NF
 #define NF 2
 #endif
+#define K_CHECK_EARLY_WAKE
 #include "kernel_contract.h"
 #define V ((void*)0x5a5a)
 uint64_t t_returned;
